@@ -362,3 +362,25 @@ Example C05_exception_nonvacuous :
     (snd (sum_of_errors_impl_x (err_throws out) (mae_err out) 1 [mk_example [PString [49%Z] (Some one)] (PDouble one) 0%N 0%N]))
     = Some [F64.to_bits (F64.neg F64.zero)].
 Proof. split; vm_compute; reflexivity. Qed.
+
+(* ================================ two-sided bound and accuracy of the mean ==== *)
+(* operator() on a non empty dataset whose errors are finite and lie between the
+   doubles A and B (take the least and the greatest error): every running
+   average -- the statement holds for every dataset, hence every prefix -- lies
+   in [A, B]; the fitness is minus it *)
+Theorem C05_running_mean_two_sided : forall (A B : f64) (errf : example -> f64) (d : list example),
+  d <> [] -> (0 <= B2R A)%R ->
+  (forall e, In e d -> F64.is_finite (errf e) = true /\ (B2R A <= B2R (errf e) <= B2R B)%R) ->
+  let avg := fst (snd (soe_loop errf 1 0 d (F64.zero, F64.zero))) in
+  F64.is_finite avg = true /\ (B2R A <= B2R avg <= B2R B)%R /\ snd (soe_eval errf d) = [F64.neg avg].
+Proof. exact running_mean_two_sided. Qed.
+Print Assumptions C05_running_mean_two_sided.
+
+(* [Rmean l] = (sum of l) / (length l) over the reals: the documented mean *)
+Theorem C05_running_mean_accuracy_coarse : forall (A B : f64) (errf : example -> f64) (d : list example),
+  d <> [] -> (0 <= B2R A)%R ->
+  (forall e, In e d -> F64.is_finite (errf e) = true /\ (B2R A <= B2R (errf e) <= B2R B)%R) ->
+  let avg := fst (snd (soe_loop errf 1 0 d (F64.zero, F64.zero))) in
+  (Rabs (B2R avg - Rmean (map (fun e => B2R (errf e)) d)) <= B2R B - B2R A)%R.
+Proof. exact running_mean_accuracy_coarse. Qed.
+Print Assumptions C05_running_mean_accuracy_coarse.
